@@ -66,3 +66,63 @@ func zzhCount(list []string, s string) int {
 	}
 	return n
 }
+
+// zzhElem is one start element of a decoded part.
+type zzhElem struct {
+	Name  string
+	Keys  []string // attribute local names
+	Vals  []string
+	Depth int
+	Text  string // character data directly inside (w:t / instrText only)
+}
+
+func (e zzhElem) Attr(k string) string {
+	for i, n := range e.Keys {
+		if n == k {
+			return e.Vals[i]
+		}
+	}
+	return ""
+}
+
+// zzhParse decodes a part into its start elements in document order.
+func zzhParse(part []byte) (out []zzhElem, ok bool) {
+	dec := xml.NewDecoder(bytes.NewReader(part))
+	depth := 0
+	var stack []int
+	for {
+		tok, err := dec.Token()
+		if err == io.EOF {
+			return out, depth == 0
+		}
+		if err != nil {
+			return out, false
+		}
+		switch t := tok.(type) {
+		case xml.StartElement:
+			depth++
+			e := zzhElem{Name: t.Name.Local, Depth: depth}
+			for _, a := range t.Attr {
+				if a.Name.Space == "xmlns" || a.Name.Local == "xmlns" {
+					continue
+				}
+				e.Keys = append(e.Keys, a.Name.Local)
+				e.Vals = append(e.Vals, a.Value)
+			}
+			out = append(out, e)
+			stack = append(stack, len(out)-1)
+		case xml.EndElement:
+			depth--
+			if len(stack) > 0 {
+				stack = stack[:len(stack)-1]
+			}
+		case xml.CharData:
+			if len(stack) > 0 {
+				top := stack[len(stack)-1]
+				if out[top].Name == "t" || out[top].Name == "instrText" {
+					out[top].Text += string(t)
+				}
+			}
+		}
+	}
+}
